@@ -10,6 +10,14 @@ else:
 from .fickle import Interpreter, MarkObject, Opcode, Stack
 
 
+def _unparse(node: ast.AST) -> str:
+    try:
+        return unparse(node).strip()
+    except RecursionError:
+        # a container that (directly or indirectly) contains itself has no finite source form
+        return f"<recursive {type(node).__name__}>"
+
+
 class Trace:
     def __init__(self, interpreter: Interpreter):
         self.interpreter: Interpreter = interpreter
@@ -18,27 +26,27 @@ class Trace:
         if isinstance(popped_value, MarkObject):
             value = "MARK"
         else:
-            value = unparse(popped_value).strip()
+            value = _unparse(popped_value)
         print(f"\tPopped {value}")
 
     def on_push(self, pushed_value: Union[ast.expr, MarkObject]):
         if isinstance(pushed_value, MarkObject):
             value = "MARK"
         else:
-            value = unparse(pushed_value).strip()
+            value = _unparse(pushed_value)
         print(f"\tPushed {value}")
 
     def on_memoize(self, index: int, value: ast.expr):
-        print(f"\tMemoized {index} -> {unparse(value).strip()}")
+        print(f"\tMemoized {index} -> {_unparse(value)}")
 
     def on_update_memo(self, index: int, old_value: ast.expr, new_value: ast.expr):
         print(
-            f"\tMemo index {index} changed from {unparse(old_value).strip()} to "
-            f"{unparse(new_value).strip()}"
+            f"\tMemo index {index} changed from {_unparse(old_value)} to "
+            f"{_unparse(new_value)}"
         )
 
     def on_statement(self, statement: ast.stmt):
-        print(f"\t{unparse(statement).strip()}")
+        print(f"\t{_unparse(statement)}")
 
     def on_opcode(self, opcode: Opcode):
         print(opcode.name)
